@@ -23,6 +23,7 @@ import (
 	"flag"
 	"fmt"
 	"os"
+	"runtime/pprof"
 	"sort"
 	"strings"
 	"sync"
@@ -457,9 +458,16 @@ func main() {
 	workers := flag.Int("j", 12, "parallel worker processes")
 	first := flag.Int("first", 0, "index of the first history")
 	worker := flag.Bool("worker", false, "internal: run sequentially and print to stdout")
-	mode := flag.String("mode", "sched", "sched | race")
+	mode := flag.String("mode", "sched", "sched | build | race")
+	thorough := flag.Bool("thorough", false, "mode build: thorough tier")
 	dur := flag.Int("ms", 1500, "race mode: duration in ms")
 	flag.Parse()
+	if pf := os.Getenv("VERIF_PPROF"); pf != "" && *worker {
+		if f, err := os.Create(pf); err == nil {
+			pprof.StartCPUProfile(f)
+			defer pprof.StopCPUProfile()
+		}
+	}
 	if *mode == "race" {
 		sim.Init(sim.Params{CoinbaseMaturity: 4, MinFrozenPeriod: 2, GapLimit: 20})
 		raceRun(rng.Seed(), time.Duration(*dur)*time.Millisecond)
@@ -474,6 +482,10 @@ func main() {
 	}
 	sim.Init(sim.Params{CoinbaseMaturity: 4, MinFrozenPeriod: 2, GapLimit: 20})
 	seed := rng.Seed()
+	if *mode == "build" {
+		buildWorker(seed, *first, *count, *thorough)
+		return
+	}
 	w := bufio.NewWriter(os.Stdout)
 	for i := 0; i < *count; i++ {
 		res, err := runOne(seed, *first+i)
